@@ -29,7 +29,7 @@ CHECK = {'rule': 'rapid-generated terminal scripts run through the real terminal
                               'handlers:fi',
                               'handlers:sufafi',
                               'matching-handler-undefined',
-                              'handler-failed',
+                              'handler-failed', 'matching-handler-failed-after-finally-had-begun',
                               'body-failure-contained',
                               'surrounding-scope-failed',
                               'exempt:skipped-after-sibling-failure',
@@ -42,7 +42,7 @@ CHECK = {'rule': 'rapid-generated terminal scripts run through the real terminal
                               'sandbox:control',
                               'ctx:shared',
                               'ctx:own',
-                              'ctx:isolated']},
+                              'ctx:isolated', 'ctx:fresh']},
  'tiers': {'quick': [{'test': '^TestEnum$', 'shards': 1, 'timeout': 200},
                      {'test': '^TestProp$', 'checks': 1200, 'shards': 6, 'timeout': 240}],
            'thorough': [{'test': '^TestEnum$', 'shards': 2, 'timeout': 600},
